@@ -222,6 +222,12 @@ decreasing_by
   simp at h2
   omega
 
+/-- the elements an HTML parser treats as void (start tag only, never any content) — the PARSER's
+    table, independent of the generator's `VOID_ELEMENTS` -/
+def htmlVoidElements : List Str :=
+  ["area", "base", "br", "col", "embed", "hr", "img", "input", "link", "meta", "param", "source", "track", "wbr"].map
+    String.toList
+
 structure Parsed where
   tag : Str
   attrs : List (Str × Str)
